@@ -808,7 +808,7 @@ pub fn build(cfg: &Cfg) -> Result<Box<dyn Api>, String> {
                 }
                 1 => {
                     // plain constructor, scalars first, every type-changing setter afterwards
-                    let mut b = $B::<u64, Val>::new(cfg.num_counters.max(2) * 3, cfg.max_cost / 2 + 7);
+                    let mut b = $B::<u64, Val>::new(cfg.num_counters.max(2) * 3, cfg.max_cost.saturating_mul(2).saturating_add(7));
                     if !d {
                         b = b.set_cleanup_duration(ms).set_ignore_internal_cost(cfg.ignore_internal_cost).set_metrics(cfg.metrics).set_buffer_items(cfg.buffer_items).set_buffer_size(cfg.buffer_size);
                     }
